@@ -123,7 +123,7 @@ def s2(out, eng, pr):
                 out.inconc("S2: %s path ends with %s %s" % (which, p.kind, p.msg[:60]))
                 continue
             r, cell, ctx = p.ret
-            results.setdefault(cell.v.variant, {})[which] = (r, ctx, p.pc)
+            results.setdefault(cell.v.variant, {}).setdefault(which, []).append((r, ctx, p.pc))
     bad = []
     n_ok = 0
     for var in variants:
@@ -131,23 +131,30 @@ def s2(out, eng, pr):
         if "child_size" not in d or "children" not in d:
             out.inconc("S2: variant %s not explored by both functions" % var)
             continue
-        (cs, ctx1, pc1), (ch, ctx2, pc2) = d["child_size"], d["children"]
+        # every path of child_size (e.g. both outcomes of a pointer comparison) against every path of children()
         try:
-            kids = ch.pushed if isinstance(ch, Obj) and ch.kind == "vec" else None
-            if kids is None:
-                raise Unsupported("children() returned %r" % (ch,))
-            total = z3.BitVecVal(0, 64)
-            for k in kids:
-                total = total + size_var_of(ctx2, k)
-            s = z3.Solver()
-            for c_ in pc1 + pc2:
-                s.add(c_)
-            s.add(ctx1.force(cs).e != total)
-            pr.n_queries += 1
-            if s.check() == z3.unsat:
+            var_ok = True
+            for (cs, ctx1, pc1) in d["child_size"]:
+                for (ch, ctx2, pc2) in d["children"]:
+                    kids = ch.pushed if isinstance(ch, Obj) and ch.kind == "vec" else None
+                    if kids is None:
+                        raise Unsupported("children() returned %r" % (ch,))
+                    total = z3.BitVecVal(0, 64)
+                    for k in kids:
+                        total = total + size_var_of(ctx2, k)
+                    s = z3.Solver()
+                    for c_ in pc1 + pc2:
+                        s.add(c_)
+                    s.add(ctx1.force(cs).e != total)
+                    pr.n_queries += 1
+                    if s.check() != z3.unsat:
+                        var_ok = False
+                        bad.append((var, str(z3.simplify(ctx1.force(cs).e)), str(z3.simplify(total))))
+                        break
+                if not var_ok:
+                    break
+            if var_ok:
                 n_ok += 1
-            else:
-                bad.append((var, str(z3.simplify(ctx1.force(cs).e)), str(z3.simplify(total))))
         except Unsupported as e:
             out.inconc("S2.%s: %s" % (var, e))
     dt = time.time() - t0
